@@ -75,6 +75,9 @@ def run_model(spec, case, dialect='back', model=None):
 _ids_re = re.compile(r'^ids\{(.*)\}$')
 
 
+_any_re = re.compile(r'/any\(([^)]*)\)')
+
+
 def normalise(trace, idmap):
     """SUT trace string -> token list with state ids replaced by names and result codes by classes."""
     rev = {mach: {v: k for k, v in d.items()} for mach, d in idmap.items()}
@@ -96,7 +99,10 @@ def normalise(trace, idmap):
         elif t.startswith('nt:'):
             head, _, evd = t.partition('/')
             _, mach, sid = head.split(':')
+            evd = _any_re.sub(r'/\1', '/' + evd)[1:]     # favor_compile_time passes the type-erased event
             out.append('nt:%s:%s/%s' % (mach, rev.get(mach, {}).get(int(sid), '#' + sid), evd))
+        elif t.startswith('xc:'):
+            out.append(_any_re.sub(r'/\1', t))
         elif t.startswith('fired='):
             continue
         else:
